@@ -17,6 +17,7 @@ type SpecFunc struct {
 	File   string
 	Order  int
 	Doc    string
+	Opaque bool // emitted as an uninterpreted function with a defining axiom triggered on its application
 	// rendered
 	decl   string
 	axioms []string
@@ -117,9 +118,10 @@ func (db *SpecDB) parseFile(fname, src string) error {
 		where := fmt.Sprintf("%s:%d", fname, it.line)
 		head := it.lines[0]
 		switch {
-		case strings.HasPrefix(head, "pure func "):
+		case strings.HasPrefix(head, "pure func "), strings.HasPrefix(head, "opaque func "):
 			full := strings.Join(it.lines, " ")
-			rest := strings.TrimPrefix(full, "pure func ")
+			opaque := strings.HasPrefix(head, "opaque func ")
+			rest := strings.TrimPrefix(strings.TrimPrefix(full, "pure func "), "opaque func ")
 			op := strings.Index(rest, "(")
 			cp := matchParen(rest, op)
 			if op < 0 || cp < 0 {
@@ -137,7 +139,7 @@ func (db *SpecDB) parseFile(fname, src string) error {
 				ret = strings.TrimSpace(after[:i])
 				body = strings.TrimSpace(after[i+1:])
 			}
-			sf := &SpecFunc{Name: name, Params: params, Ret: ret, File: where, Order: len(db.order)}
+			sf := &SpecFunc{Name: name, Params: params, Ret: ret, File: where, Order: len(db.order), Opaque: opaque}
 			if body != "" {
 				ex, err := parseSpec(body)
 				if err != nil {
@@ -301,7 +303,7 @@ func (e *Engine) renderSpecs(bv bool) error {
 				if bv.(Sc).S != ret && ret == SReal {
 					body = toReal(bv.(Sc))
 				}
-				if c.used[name] {
+				if c.used[name] || sf.Opaque {
 					sf.inductive = true
 					sf.decl = fmt.Sprintf("(declare-fun %s (%s) %s)", name, strings.Join(sorts, " "), ret)
 					var vars [][2]string
